@@ -9,7 +9,7 @@
 
 use crate::{
     PageId,
-    multithreading::coordinator::TransactionCoordinator,
+    multithreading::coordinator::{TransactionCoordinator, TransactionError},
     runtime::{
         RuntimeError, RuntimeResult,
         context::{ThreadContext, TransactionLogger},
@@ -630,6 +630,17 @@ impl DdlExecutor {
             }
             return Err(RuntimeError::AlreadyExists(DatabaseItem::Table(
                 instr.table_name.clone(),
+            )));
+        }
+
+        // Another transaction this one does not see may hold the name (still open, or committed after
+        // this one began). Creating it now would replace that transaction's entry in the name index;
+        // this transaction could not commit anyway (the name is in the other's write set).
+        if let Some(holder) = self.ctx.name_holder(&instr.table_name)? {
+            return Err(RuntimeError::TransactionalError(TransactionError::NameHeld(
+                self.ctx.tid(),
+                instr.table_name.clone(),
+                holder,
             )));
         }
 
